@@ -434,6 +434,12 @@ class DFContainer:
             self.locals.pop(place.id, None)
         else:
             self.locals[place.id] = port
+        # A wire that was cached for an enclosing struct or tuple when it was last packed
+        # (see `__getitem__`) is stale now: it still holds the old value of this place
+        parent = place
+        while isinstance(parent, FieldAccess | TupleAccess):
+            parent = parent.parent
+            self.locals.pop(parent.id, None)
 
     def __contains__(self, place: Place) -> bool:
         return place.id in self.locals
